@@ -79,6 +79,27 @@ def multi_lines(rnd, count):
     return out
 
 
+def count_lines(rnd):
+    """declared suite counts whose product with the suite size leaves 8 or 16 bits, against 0..6 suites actually present"""
+    out = []
+    counts = [0x0040, 0x0100, 0x3fff, 0x4000, 0x4001, 0x4002, 0x8000, 0x8001, 0xc001, 0xffff]
+    for which in ("pairwise", "akm"):
+        for c in counts:
+            for present in (0, 1, 2, 6):
+                pw = [suite(IEEE, 4)] * (present if which == "pairwise" else 1)
+                ak = [suite(IEEE, 2)] * (present if which == "akm" else 1)
+                body = rsn_body(suite(IEEE, 4), pw, ak, caps=b"\x0c\x00", pcount=c if which == "pairwise" else None, acount=c if which == "akm" else None)
+                tail = elem(221, bytes([0x11, 0x22, 0x33]) + IEEE + b"\x08" + IEEE + b"\x02")      # bytes a wrapped walk would pick up
+                for follow in (b"", tail):
+                    if len(body) <= 255:
+                        out.append(frames.mp_line(beacon_with(rnd, rnd.choice(frames.BSS_KINDS), elem(48, body) + follow, True), 0, rnd))
+                wb = wpa_body(suite(MS, 2), [suite(MS, 2)] * (present if which == "pairwise" else 1), [suite(MS, 2)] * (present if which == "akm" else 1),
+                              pcount=c if which == "pairwise" else None, acount=c if which == "akm" else None)
+                for follow in (b"", tail):
+                    out.append(frames.mp_line(beacon_with(rnd, rnd.choice(frames.BSS_KINDS), elem(221, wb) + follow, False), 0, rnd))
+    return out
+
+
 def truncation_lines(rnd):
     out = []
     body = rsn_body(suite(IEEE, 4), [suite(IEEE, 4), suite(IEEE, 2)], [suite(IEEE, 2), suite(IEEE, 8)], caps=b"\x8c\x00")
@@ -105,6 +126,7 @@ def check(ctx):
     fw.run_suite(ctx, exe, "S-sec/single-suite", single_suite_lines(rnd), "security classification")
     fw.run_suite(ctx, exe, "S-sec/truncation", truncation_lines(rnd), "security classification")
     fw.run_suite(ctx, exe, "S-sec/multi", multi_lines(rnd, 3000 if ctx.tier == "quick" else 50000), "security classification")
+    fw.run_suite(ctx, exe, "S-sec/counts", count_lines(rnd), "security classification")
     fw.conclude(ctx, broken)
 
 
